@@ -11,7 +11,7 @@ import Mathlib.Tactic.NormNum
 # `Vec2/3/4::length()` is a Euclidean length as soon as `sqrt` is a square root
 
 The C15 theorems take the hypothesis `LenSpec (Gen.V3.length tmin sqrt)`.  Here it is DERIVED from
-`SqrtSpec sqrt` for the real extracted bodies (every path of `length` / `lengthTiny`), for every value of `tmin`, over
+`SqrtSpec sqrt` for the real extracted bodies (every path of `length` / `lengthTiny`), for every value of `tmin` and `tmax`, over
 any ordered field; over `ℝ` with `Real.sqrt` this gives the non-vacuity instance used by the examples of
 `Props/C15.lean`.
 -/
@@ -36,24 +36,28 @@ theorem scaled_len {m S q : α} {sqrt : α → α} (hs : SqrtSpec sqrt) (hm : 0 
   refine ⟨?_, mul_nonneg hm hr0⟩
   rw [← hq, mul_pow, sq, sq, hr]
 
-set_option maxHeartbeats 2000000 in
+set_option maxHeartbeats 4000000 in
 /-- `Vec3::length()` (with its `lengthTiny` branch for tiny vectors) IS a Euclidean length as soon as `sqrt` is a
 square root: the hypothesis `LenSpec (Gen.V3.length tmin sqrt)` of the C15 theorems follows from `SqrtSpec sqrt`,
-for every value of `tmin` -/
-theorem V3_length_spec (tmin : α) (sqrt : α → α) (hs : SqrtSpec sqrt) : LenSpec (Gen.V3.length tmin sqrt) := by
+for every value of `tmin` and `tmax` -/
+theorem V3_length_spec (tmin tmax : α) (sqrt : α → α) (hs : SqrtSpec sqrt) : LenSpec (Gen.V3.length tmin tmax sqrt) := by
   intro a
-  generalize hL : Gen.V3.length tmin sqrt a = L
+  generalize hL : Gen.V3.length tmin tmax sqrt a = L
   simp only [Gen.V3.length] at hL
   simp only [dot]
+  -- the scaled (`lengthTiny`) branch is taken for tiny AND for overflowing squared lengths
   by_cases c0 : a.x * a.x + a.y * a.y + a.z * a.z < 2 * tmin
-  swap
-  · simp only [if_neg c0] at hL
+  on_goal 2 => by_cases c1 : tmax < a.x * a.x + a.y * a.y + a.z * a.z
+  on_goal 3 =>
+    simp only [if_neg c0, if_neg c1] at hL
     subst hL
     obtain ⟨hr, hr0⟩ := hs _ (add_nonneg (add_nonneg (mul_self_nonneg a.x) (mul_self_nonneg a.y)) (mul_self_nonneg a.z))
     exact ⟨by rw [sq, hr], hr0⟩
-  simp only [if_pos c0] at hL
-  by_cases sx : 0 ≤ a.x <;> by_cases sy : 0 ≤ a.y <;> by_cases sz : 0 ≤ a.z <;>
-    simp only [sx, sy, sz, if_true, if_false] at hL <;> split_ifs at hL <;> subst hL
+  on_goal 1 => simp only [if_pos c0] at hL
+  on_goal 2 => simp only [if_neg c0, if_pos c1] at hL
+  all_goals
+    by_cases sx : 0 ≤ a.x <;> by_cases sy : 0 ≤ a.y <;> by_cases sz : 0 ≤ a.z <;>
+      simp only [sx, sy, sz, if_true, if_false] at hL <;> split_ifs at hL <;> subst hL
   all_goals first
     | (refine scaled_len hs (by linarith) (add_nonneg (add_nonneg (mul_self_nonneg _) (mul_self_nonneg _)) (mul_self_nonneg _)) ?_
        try simp only [neg_eq_zero] at *
@@ -63,9 +67,9 @@ theorem V3_length_spec (tmin : α) (sqrt : α → α) (hs : SqrtSpec sqrt) : Len
        have hz : a.z = 0 := by linarith
        rw [hx, hy, hz]; norm_num)
 
-theorem V2_length_spec (tmin : α) (sqrt : α → α) (hs : SqrtSpec sqrt) : LenSpec2 (Gen.V2.length tmin sqrt) := by
+theorem V2_length_spec (tmin tmax : α) (sqrt : α → α) (hs : SqrtSpec sqrt) : LenSpec2 (Gen.V2.length tmin tmax sqrt) := by
   intro a
-  generalize hL : Gen.V2.length tmin sqrt a = L
+  generalize hL : Gen.V2.length tmin tmax sqrt a = L
   simp only [Gen.V2.length, sabs_abs] at hL
   simp only [dot2]
   split_ifs at hL <;> subst hL
@@ -81,21 +85,24 @@ theorem V2_length_spec (tmin : α) (sqrt : α → α) (hs : SqrtSpec sqrt) : Len
     | (obtain ⟨hr, hr0⟩ := hs _ (add_nonneg (mul_self_nonneg a.x) (mul_self_nonneg a.y))
        exact ⟨by rw [sq, hr], hr0⟩)
 
-set_option maxHeartbeats 4000000 in
-theorem V4_length_spec (tmin : α) (sqrt : α → α) (hs : SqrtSpec sqrt) : LenSpec4 (Gen.V4.length tmin sqrt) := by
+set_option maxHeartbeats 8000000 in
+theorem V4_length_spec (tmin tmax : α) (sqrt : α → α) (hs : SqrtSpec sqrt) : LenSpec4 (Gen.V4.length tmin tmax sqrt) := by
   intro a
-  generalize hL : Gen.V4.length tmin sqrt a = L
+  generalize hL : Gen.V4.length tmin tmax sqrt a = L
   simp only [Gen.V4.length] at hL
   simp only [dot4]
   by_cases c0 : a.x * a.x + a.y * a.y + a.z * a.z + a.w * a.w < 2 * tmin
-  swap
-  · simp only [if_neg c0] at hL
+  on_goal 2 => by_cases c1 : tmax < a.x * a.x + a.y * a.y + a.z * a.z + a.w * a.w
+  on_goal 3 =>
+    simp only [if_neg c0, if_neg c1] at hL
     subst hL
     obtain ⟨hr, hr0⟩ := hs _ (add_nonneg (add_nonneg (add_nonneg (mul_self_nonneg a.x) (mul_self_nonneg a.y)) (mul_self_nonneg a.z)) (mul_self_nonneg a.w))
     exact ⟨by rw [sq, hr], hr0⟩
-  simp only [if_pos c0] at hL
-  by_cases sx : 0 ≤ a.x <;> by_cases sy : 0 ≤ a.y <;> by_cases sz : 0 ≤ a.z <;> by_cases sw : 0 ≤ a.w <;>
-    simp only [sx, sy, sz, sw, if_true, if_false] at hL <;> split_ifs at hL <;> subst hL
+  on_goal 1 => simp only [if_pos c0] at hL
+  on_goal 2 => simp only [if_neg c0, if_pos c1] at hL
+  all_goals
+    by_cases sx : 0 ≤ a.x <;> by_cases sy : 0 ≤ a.y <;> by_cases sz : 0 ≤ a.z <;> by_cases sw : 0 ≤ a.w <;>
+      simp only [sx, sy, sz, sw, if_true, if_false] at hL <;> split_ifs at hL <;> subst hL
   all_goals first
     | (refine scaled_len hs (by linarith) (add_nonneg (add_nonneg (add_nonneg (mul_self_nonneg _) (mul_self_nonneg _)) (mul_self_nonneg _)) (mul_self_nonneg _)) ?_
        try simp only [neg_eq_zero] at *
@@ -105,12 +112,11 @@ theorem V4_length_spec (tmin : α) (sqrt : α → α) (hs : SqrtSpec sqrt) : Len
        have hz : a.z = 0 := by linarith
        have hw : a.w = 0 := by linarith
        rw [hx, hy, hz, hw]; norm_num)
-
 /-- the real square root is a square root -/
 theorem realSqrtSpec : SqrtSpec Real.sqrt := fun x hx => ⟨Real.mul_self_sqrt hx, Real.sqrt_nonneg x⟩
 
-theorem realLenSpec (tmin : ℝ) : LenSpec (Gen.V3.length tmin Real.sqrt) := V3_length_spec tmin Real.sqrt realSqrtSpec
-theorem realLenSpec2 (tmin : ℝ) : LenSpec2 (Gen.V2.length tmin Real.sqrt) := V2_length_spec tmin Real.sqrt realSqrtSpec
-theorem realLenSpec4 (tmin : ℝ) : LenSpec4 (Gen.V4.length tmin Real.sqrt) := V4_length_spec tmin Real.sqrt realSqrtSpec
+theorem realLenSpec (tmin tmax : ℝ) : LenSpec (Gen.V3.length tmin tmax Real.sqrt) := V3_length_spec tmin tmax Real.sqrt realSqrtSpec
+theorem realLenSpec2 (tmin tmax : ℝ) : LenSpec2 (Gen.V2.length tmin tmax Real.sqrt) := V2_length_spec tmin tmax Real.sqrt realSqrtSpec
+theorem realLenSpec4 (tmin tmax : ℝ) : LenSpec4 (Gen.V4.length tmin tmax Real.sqrt) := V4_length_spec tmin tmax Real.sqrt realSqrtSpec
 
 end ImathVerif.Geo
